@@ -241,12 +241,14 @@ def build_spec(kind: str, mode: str, ctx: Any, tier: str) -> tuple[dict, dict]:
                     kw['file_set_number'] = assigned['file_set_number']
     ops.append(S.op_add(kind, 'T', tname, **kw))
     ops.extend(later)
-    if rename_set:
-        ops.append({'op': 'setname', 'h': 'T', 'value': rename_set})
     if position in ('before-bare', 'between-full'):
         kw1 = dict(sname)
         if kind == 'frame':
             kw1['channels'] = [R_('C2')] if position == 'before-bare' else [R_('C0')]
         ops.append(S.op_add(kind, 'X1', tname if position == 'between-full' else 'OTHER-1', **kw1))
+    if rename_set:
+        # after ALL objects were added: the registries are keyed by the name a set had when it was created, so adding
+        # to a renamed set (under either name) is not an operation the API supports
+        ops.append({'op': 'setname', 'h': 'T', 'value': rename_set})
     sp = {'sul': {'max_record_length': vrl}, 'ops': ops, 'write': {}}
     return sp, {'target': 'T', 'assigned': assigned, 'units': units, 'route': route, 'position': position}
